@@ -174,7 +174,8 @@ func checkC02(r *evid.Run) {
 	r.Set("rule", "every sequence of at most MaxLines lines over the 16-line pool (well-formed items in two units and three bullets, a heading, blank lines, and one representative per malformation class), each run through text (both generators), JSON, YAML and walk; non-trivial = at least 2 lines and a root")
 	injectMalformations = injectC02
 	traceDocs(r, "C02", traceSpecC02)
-	big := traceSpecBig // several KiB, 0-2 malformations somewhere in them
+	traceDocs(r, "C02", traceSpecBig) // several KiB, rendered completely ...
+	big := traceSpecBig               // ... or, with 0-2 malformations somewhere in them, rejected
 	big.Malform = true
 	traceDocs(r, "C02", big)
 }
